@@ -7,7 +7,7 @@ import types
 from collections import deque
 from typing import Any, Callable
 
-from aiomysensors.exceptions import AIOMySensorsError, TransportFailedError
+from aiomysensors.exceptions import AIOMySensorsError, TransportError, TransportFailedError
 from aiomysensors.gateway import Config, Gateway
 from aiomysensors.model.message import Message
 from aiomysensors.model.protocol import get_protocol
@@ -29,6 +29,13 @@ class InjectedWriteFault(TransportFailedError):
     """The transport error injected by the harness."""
 
 
+class CustomTransportFault(TransportError):
+    """A transport's own error class (the Transport contract is TransportError, not its subclasses)."""
+
+
+FAULT_CLASSES = {"failed": InjectedWriteFault, "plain": TransportError, "custom": CustomTransportFault}
+
+
 class ScriptTransport(Transport):
     """Implements the library's public abstract Transport.
 
@@ -43,6 +50,7 @@ class ScriptTransport(Transport):
         self.attempts: list[tuple[str, bool]] = []  # (line, ok)
         self.fail_writes = 0
         self.fail_plan: deque[bool] | None = None  # per-attempt plan (True = fail) consumed first
+        self.fault_class = InjectedWriteFault
         self.on_write: Callable[[str], None] | None = None
         self.connected = False
         self.reads = 0
@@ -70,7 +78,7 @@ class ScriptTransport(Transport):
             fail = True
         self.attempts.append((decoded_message, not fail))
         if fail:
-            raise InjectedWriteFault("injected write fault")
+            raise self.fault_class("injected write fault")
         self.writes.append(decoded_message)
 
 
@@ -301,7 +309,7 @@ class AsyncScriptTransport(Transport):
         self.log: list[str] = []  # every write, in invocation order
         self.done: list[str] = []  # writes that completed successfully
         self.pending_writes: list[list] = []  # [future, line]
-        self.pending_read = None
+        self.pending_reads: list = []  # futures of read() calls waiting for a line (oldest first)
         self.connected = False
         self.connect_error: BaseException | None = None
         self.disconnect_error: BaseException | None = None
@@ -325,12 +333,12 @@ class AsyncScriptTransport(Transport):
                 raise ScriptExhausted
             return self.lines.popleft()
         fut = self.loop.create_future()
-        self.pending_read = fut
+        self.pending_reads.append(fut)
         try:
             return await fut
         finally:
-            if self.pending_read is fut:
-                self.pending_read = None
+            if fut in self.pending_reads:
+                self.pending_reads.remove(fut)
 
     async def write(self, decoded_message: str) -> None:
         self.log.append(decoded_message)
@@ -348,17 +356,17 @@ class AsyncScriptTransport(Transport):
                 self.pending_writes.remove(entry)
 
     # explorer side
-    def deliver(self, line: str) -> None:
-        fut = self.pending_read
-        if fut is None or fut.done():
+    @property
+    def pending_read(self):
+        return self.pending_reads[0] if self.pending_reads else None
+
+    def deliver(self, line: str, idx: int = 0) -> None:
+        if idx >= len(self.pending_reads) or self.pending_reads[idx].done():
             raise HarnessError("no pending read")
-        self.pending_read = None
-        fut.set_result(line)
+        self.pending_reads.pop(idx).set_result(line)
 
     def fail_read(self, exc: BaseException) -> None:
-        fut = self.pending_read
-        self.pending_read = None
-        fut.set_exception(exc)
+        self.pending_reads.pop(0).set_exception(exc)
 
     def complete_write(self, idx: int, ok: bool = True) -> None:
         fut, line = self.pending_writes.pop(idx)
